@@ -67,6 +67,27 @@ def down(ctx):
         ob.refute("down-addr", "sub-command address is %s: the latched address times the ratio plus the beat counter PLUS something else - the sub-commands are shifted off the "
                   "user word" % key(addr[0].value), addr[0].loc)
         return
+    if (cnt is None or adr is None) and isinstance(addr[0].value, Obj) and addr[0].value.cls == "Signal":
+        # running-address form: a register loaded with addr*ratio and stepped by one per accepted sub-command. Decided here: the register holds the
+        # product without losing its top bits
+        R_ = addr[0].value
+        loads_ = [l for l in v.fsm_leaves(f) if l.kind == "nextvalue" and key(l.target) == key(R_) and key(R_) not in support(l.value)]
+        for l in loads_:
+            fl_ = lin(l.value)
+            trunc_ = fits(R_, l.value) is False
+            if not trunc_ and isinstance(l.value, Op) and l.value.op in ("*", "<<") and len(l.value.args) == 2:
+                # A * ratio with ratio a build-time integer >= 2 (a down-converter narrows): the product needs width(A) + log2(ratio) bits
+                A_ = [x for x in l.value.args if not isinstance(x, Const) and lin(x) is not None and rk not in lin(x).atoms()]
+                wR_ = twidth(R_)
+                wA_ = twidth(A_[0]) if len(A_) == 1 else None
+                if wR_ and len(wR_) == 1 and wA_ and any(lin_ge(w_, wR_[0]) is True for w_ in wA_):
+                    trunc_ = True
+                if wR_ and len(wR_) == 1 and not wA_ and len(A_) == 1 and key(wR_[0]) == "len(%s)" % key(A_[0]):
+                    trunc_ = True          # declared exactly as wide as the factor itself
+            if fl_ is not None and any(rk in m_ for m_ in fl_.t) and trunc_:
+                ob.refute("down-addr-truncated", "the running sub-command address %s is loaded with %s but declared narrower than that product: the top log2(ratio) bits of the user "
+                          "address are lost and upper addresses alias onto lower ones" % (key(R_), key(l.value)), l.loc)
+                return
     if cnt is None or adr is None:
         ob.unknown("sub-command address %s is not of the form latched_address*ratio + counter (e.g. a running address register): the splitting arithmetic is not decided" %
                    key(addr[0].value))
